@@ -1,6 +1,7 @@
 CFG = P(
     "c14",
     model_is_spec=[],
+    pregen=["python3", "lib/rs2lean_retry.py"],
     partial=[
         "f64 arithmetic of the backoff update is an uninterpreted function `scale` in the theorems (they hold for every such function, including one that rejects every value); its concrete IEEE behaviour (as_secs_f64, *, NaN-ignoring min/max, try_from_secs_f64 rounding) is re-implemented exactly in Driver/C14.lean and tied by the run only",
         "the random jitter is an arbitrary function in the theorems; the 30 % law assumed by delay_bounds is checked on every observed delay of the real code by the run (model side: jit-ok/jit-bad, oracle side: against the same case with jitter off)",
